@@ -84,6 +84,7 @@ def _fce(fn, nid, name, ns):
 
 
 LEVELS = [('message', 'ns_client'), ('forwarded', 'ns_forwarding'), (None, 'ns_carbons')]
+_PROG = [None]
 
 
 def _from_carbon(fn, nid, level=0, ctx=()):
@@ -104,7 +105,19 @@ def _from_carbon(fn, nid, level=0, ctx=()):
             return False
         if node['k'] == 'construct' and not node.get('args') and node.get('cls') == 'QDomElement':
             continue                    # the null element: nothing can be unwrapped from it
+        if node['k'] == 'cond':
+            if not (_from_carbon(fn, node['a'], level, ctx) and _from_carbon(fn, node['b'], level, ctx)):
+                return False
+            continue
         if level == len(LEVELS):
+            return False
+        if node['k'] == 'call' and not node.get('op') and fn.cname(node) != 'QXmpp::Private::firstChildElement' and len(ctx) < 3 and _PROG[0] is not None:
+            # a same-file helper that selects the wrapper: every element it can return must come from the chain
+            gs = [g for g in _PROG[0].callee_fns(fn, node) if g.entry is not None and g.file == fn.file]
+            if len(gs) == 1:
+                rets = [r for _, r in gs[0].returns() if 'e' in r]
+                if rets and all(_from_carbon(gs[0], r['e'], level, ctx + ((fn, node),)) for r in rets):
+                    continue
             return False
         x = _fce(fn, m, *LEVELS[level])
         if x is None or not _from_carbon(fn, x, level + 1, ctx):
@@ -205,6 +218,7 @@ def evaluator(fn, equal):
 
 
 def run(prog, run):
+    _PROG[0] = prog
     run.explanation = ('For both carbon managers the handler is explored under the abstract input "outer from differs from the configured '
                        'bare JID" (every other condition unknown): no signal emission, message injection, look into <forwarded/> or inner '
                        'parse is reachable and every exit returns false; under "equal" the sinks are reachable, the presented object is the '
